@@ -253,13 +253,13 @@ Definition has_priv (u : user) (p : priv) (d : string) : Prop :=
 (* one entry of a statement's requirement list, for an ordinary user *)
 Definition entry_holds (u : user) (db : string) (rp : reqpriv) : Prop :=
   match rp with
-  | RAdmin | RAdminRw => False
+  | RAdmin | RAdminRw | RInvalid => False
   | RDb d p => has_priv u p (target_db d db)
   | RRwAllow | RRwDeny => True
   end.
 (* a statement, for an account with partition privileges: let through by its case, or not refused by its case and free
    of entries without the Rwuser flag *)
-Definition rw_allowed (s : stmt) : Prop := In RRwAllow s \/ (~ In RRwDeny s /\ ~ In RAdmin s).
+Definition rw_allowed (s : stmt) : Prop := In RRwAllow s \/ (~ In RRwDeny s /\ ~ In RAdmin s /\ ~ In RInvalid s).
 Definition stmt_allowed (u : user) (db : string) (s : stmt) : Prop :=
   if u_rw u then rw_allowed s else forall rp, In rp s -> entry_holds u db rp.
 Definition can_see_spec (u : user) (d : string) : Prop := has_priv u ReadPriv d \/ has_priv u WritePriv d.
@@ -312,17 +312,17 @@ Proof.
     + apply existsb_rwdeny in ED. split; [discriminate|]. intros [X|[X _]]; contradiction.
     + assert (~ In RRwDeny s) as ND. { intro X. apply existsb_rwdeny in X. congruence. }
       rewrite forallb_forall. split.
-      * intro H. right. split; [exact ND|]. intro X. specialize (H _ X). discriminate.
-      * intros [X|[_ X]]; [contradiction|]. intros rp Hrp. destruct rp; try reflexivity. contradiction.
+      * intro H. right. split; [exact ND|]. split; intro X; specialize (H _ X); discriminate.
+      * intros [X|[_ [X Y]]]; [contradiction|]. intros rp Hrp. destruct rp; try reflexivity; contradiction.
 Qed.
 
 Lemma authorize_stmt_spec : forall u db s, authorize_stmt u db s = true <-> stmt_allowed u db s.
 Proof.
   intros u db s. unfold authorize_stmt, stmt_allowed. destruct (u_rw u); [apply authorize_stmt_rw_spec|].
   unfold authorize_stmt_plain. rewrite forallb_forall. split.
-  - intros H rp Hrp. specialize (H rp Hrp). destruct rp as [| |d p| |]; cbn [entry_holds]; try discriminate; auto.
+  - intros H rp Hrp. specialize (H rp Hrp). destruct rp as [| |d p| | |]; cbn [entry_holds]; try discriminate; auto.
     apply authorize_database_spec. exact H.
-  - intros H rp Hrp. specialize (H rp Hrp). destruct rp as [| |d p| |]; cbn [entry_holds] in H; try contradiction; auto.
+  - intros H rp Hrp. specialize (H rp Hrp). destruct rp as [| |d p| | |]; cbn [entry_holds] in H; try contradiction; auto.
     apply authorize_database_spec. exact H.
 Qed.
 
@@ -616,7 +616,7 @@ Proof.
   intros u d p db s. unfold authorize_stmt. cbn [set_priv_user u_rw]. destruct (u_rw u); [reflexivity|].
   unfold authorize_stmt_plain, stmt_mentions. induction s as [|rp s IH]; intro H; [reflexivity|].
   cbn [existsb forallb] in *. apply orb_false_iff in H. destruct H as [H1 H2]. rewrite (IH H2).
-  destruct rp as [| |d0 q| |]; try reflexivity. apply str_eqb_false in H1.
+  destruct rp as [| |d0 q| | |]; try reflexivity. apply str_eqb_false in H1.
   rewrite authorize_database_other_db; [reflexivity|exact H1].
 Qed.
 
@@ -807,7 +807,7 @@ Lemma rw_refused_by_unflagged_entry : forall u db s, u_rw u = true -> u_admin u 
 Proof.
   intros u db s Hr Ha Hin Hno. unfold authorize_query. rewrite Ha. cbn [orb forallb]. rewrite andb_true_r.
   unfold authorize_stmt. rewrite Hr. destruct (authorize_stmt_rw s) eqn:E; [|reflexivity].
-  apply authorize_stmt_rw_spec in E. destruct E as [X|[_ X]]; contradiction.
+  apply authorize_stmt_rw_spec in E. destruct E as [X|[_ [X _]]]; contradiction.
 Qed.
 
 Lemma rw_refused_by_case : forall u db s, u_rw u = true -> u_admin u = false ->
@@ -822,7 +822,7 @@ Lemma rw_database_statements_allowed : forall u db s, u_rw u = true ->
   (forall rp, In rp s -> exists d p, rp = RDb d p) -> authorize_query u db [s] = true.
 Proof.
   intros u db s Hr Hall. unfold authorize_query. apply orb_true_iff. right. cbn [forallb]. rewrite andb_true_r.
-  unfold authorize_stmt. rewrite Hr. apply authorize_stmt_rw_spec. right. split; intro X; destruct (Hall _ X) as (d & p & E); discriminate.
+  unfold authorize_stmt. rewrite Hr. apply authorize_stmt_rw_spec. right. repeat split; intro X; destruct (Hall _ X) as (d & p & E); discriminate.
 Qed.
 
 (* the markers mean nothing for an ordinary user *)
@@ -923,4 +923,94 @@ Proof.
     + unfold serve. rewrite E. split; [reflexivity|right; reflexivity].
     + rewrite (invalid_creds_rejected_lemma shape_now cfg us r k rq Ha Hadm Hau E Hno). split; [reflexivity|left; reflexivity].
   - unfold serve. rewrite Hrej. split; [reflexivity|right; reflexivity].
+Qed.
+
+(* ------------------------------------------------------------------------------------------------------------ *)
+(* AuthorizeUnrestricted (translated formula) is the administrator flag: an account with partition privileges is refused
+   by every handler that asks for the administrator *)
+Lemma uexpr_is_admin_sound : forall e, uexpr_is_admin e = true -> forall adm rw, eval_uexpr e adm rw = Some adm.
+Proof.
+  intros e H adm rw. unfold uexpr_is_admin in H. repeat (apply andb_true_iff in H; destruct H as [H ?]).
+  assert (forall o b, opt_bool_eqb o b = true -> o = Some b) as X.
+  { intros o b. destruct o as [x|]; cbn; [|discriminate]. destruct x, b; cbn; congruence. }
+  destruct adm, rw; apply X; assumption.
+Qed.
+
+Lemma unrestricted_check : uexpr_is_admin unrestricted_now = true.
+Proof. vm_compute. reflexivity. Qed.
+
+Lemma unrestricted_code_is_admin : forall u, eval_uexpr unrestricted_now (u_admin u) (u_rw u) = Some (u_admin u).
+Proof. intro u. apply uexpr_is_admin_sound. exact unrestricted_check. Qed.
+
+Lemma rwuser_refused_on_admin_routes_lemma : forall r cfg us rq u,
+  In r routes -> r_sig r = SigUser ->
+  auth_enabled cfg = true -> admin_exists us = true -> valid_creds cfg us (rq_creds rq) u -> u_rw u = true -> u_admin u = false ->
+  eval_uexpr unrestricted_now (u_admin u) (u_rw u) = Some false /\
+  serve shape_now cfg us r KAdminOnly rq = (403, []).
+Proof.
+  intros r cfg us rq u Hin Hs Ha Hadm Hv Hrw Hna. split.
+  - rewrite unrestricted_code_is_admin. rewrite Hna. reflexivity.
+  - exact (admin_routes_refuse_lemma r cfg us rq u Hin Hs Ha Hadm Hv Hna).
+Qed.
+
+(* checkAuthorization: ANY error of the authorizer refuses *)
+Lemma check_authz_check : check_authz_returns_all_now = true.
+Proof. vm_compute. reflexivity. Qed.
+
+Lemma stmt_result_ok_iff : forall u db s, stmt_result u db s = AuthzOk <-> authorize_stmt u db s = true.
+Proof.
+  intros u db s. unfold stmt_result. destruct (authorize_stmt u db s); [tauto|].
+  destruct (existsb is_invalid s && negb (u_rw u && existsb is_rwallow s)); split; discriminate.
+Qed.
+
+Lemma stmts_result_ok_iff : forall u db q, stmts_result u db q = AuthzOk <-> forallb (authorize_stmt u db) q = true.
+Proof.
+  intros u db q. induction q as [|s q IH]; cbn [stmts_result forallb]; [tauto|].
+  destruct (stmt_result u db s) eqn:E.
+  - apply stmt_result_ok_iff in E. rewrite E. cbn [andb]. exact IH.
+  - assert (authorize_stmt u db s = false) as ->.
+    { destruct (authorize_stmt u db s) eqn:F; [|reflexivity]. apply stmt_result_ok_iff in F. congruence. }
+    cbn [andb]. split; discriminate.
+  - assert (authorize_stmt u db s = false) as ->.
+    { destruct (authorize_stmt u db s) eqn:F; [|reflexivity]. apply stmt_result_ok_iff in F. congruence. }
+    cbn [andb]. split; discriminate.
+Qed.
+
+Lemma query_result_ok_iff : forall u db q, query_result u db q = AuthzOk <-> authorize_query u db q = true.
+Proof.
+  intros u db q. unfold query_result, authorize_query. destruct (u_admin u); cbn [orb]; [tauto|]. apply stmts_result_ok_iff.
+Qed.
+
+Lemma check_authorization_spec : forall u db q, check_authorization (query_result u db q) = authorize_query u db q.
+Proof.
+  intros u db q. destruct (authorize_query u db q) eqn:E.
+  - apply query_result_ok_iff in E. rewrite E. reflexivity.
+  - destruct (query_result u db q) eqn:F; try reflexivity. apply query_result_ok_iff in F. congruence.
+Qed.
+
+Lemma any_authorizer_error_refuses_lemma : forall sh cfg us r q rq u,
+  auth_enabled cfg = true -> admin_exists us = true -> authenticated sh r = true -> always_rejects r = false ->
+  valid_creds cfg us (rq_creds rq) u -> query_result u (rq_db rq) q <> AuthzOk ->
+  serve sh cfg us r (KQuery q) rq = (403, []).
+Proof.
+  intros sh cfg us r q rq u Ha Hadm Hauth Hrej Hv Hne. unfold serve. rewrite Hrej, Hauth.
+  rewrite (authenticate_pass_complete _ _ _ _ Ha Hadm Hv). cbn [inner]. rewrite Ha. cbn [negb].
+  destruct (authorize_query u (rq_db rq) q) eqn:E; [|reflexivity]. apply query_result_ok_iff in E. contradiction.
+Qed.
+
+(* the error that is not an authorization error: RequiredPrivileges fails (invalid source) *)
+Lemma invalid_source_is_other_error : forall u db s q,
+  In RInvalid s -> u_admin u = false -> ~ In RRwAllow s -> query_result u db (s :: q) = AuthzOtherError.
+Proof.
+  intros u db s q Hin Hna Hno. unfold query_result. rewrite Hna. cbn [stmts_result].
+  assert (existsb is_invalid s = true) as EI. { apply existsb_exists. exists RInvalid. split; [exact Hin|reflexivity]. }
+  assert (existsb is_rwallow s = false) as EA.
+  { destruct (existsb is_rwallow s) eqn:X; [|reflexivity]. apply existsb_rwallow in X. contradiction. }
+  assert (authorize_stmt u db s = false) as EF.
+  { unfold authorize_stmt. destruct (u_rw u).
+    - unfold authorize_stmt_rw. rewrite EA.
+      destruct (existsb is_rwdeny s); [reflexivity|].
+      destruct (forallb _ s) eqn:F; [|reflexivity]. rewrite forallb_forall in F. specialize (F _ Hin). discriminate.
+    - unfold authorize_stmt_plain. destruct (forallb _ s) eqn:F; [|reflexivity]. rewrite forallb_forall in F. specialize (F _ Hin). discriminate. }
+  unfold stmt_result. rewrite EF, EI, EA. rewrite andb_false_r. reflexivity.
 Qed.
